@@ -508,7 +508,7 @@ impl Database {
             Ok(JsonbBuilderValue::Bool(true))
         } else if s == "false" {
             Ok(JsonbBuilderValue::Bool(false))
-        } else if s.starts_with('"') && s.ends_with('"') {
+        } else if s.len() >= 2 && s.starts_with('"') && s.ends_with('"') {
             let inner = &s[1..s.len() - 1];
             let unescaped = Self::unescape_json_string(inner)?;
             Ok(JsonbBuilderValue::String(unescaped))
